@@ -42,7 +42,7 @@ import vlib
 # (by-value recursion, non-ASCII names are rewritten) is filtered by `in_frag` itself
 FEATURES = {"bool", "int", "int_format", "number", "string", "null", "str_enum", "object", "closed_object",
             "map", "array", "nullable_type", "ref", "recursion", "rename", "str_len", "str_pattern", "int_bounds", "set", "fixed_array", "tuple",
-            "oneof_external", "oneof_internal", "oneof_adjacent", "oneof_untagged", "nullable_oneof"}
+            "oneof_external", "oneof_internal", "oneof_adjacent", "oneof_untagged", "nullable_oneof", "nullable_anyof_ref", "anyof_exclusive"}
 
 CORPUS = os.path.join(vlib.ROOT, "corpus", "convert")
 
@@ -276,6 +276,26 @@ def option_docs():
     doc({"oneOf": [{"oneOf": [{"type": "string"}, nul]}, nul]})            # Option of an Option
     doc({"anyOf": [{"type": "string"}, nul]})
     doc({"anyOf": [{"$ref": "#/definitions/B"}, nul]})
+    # the anyOf routes of convert_any_of: maybe_option, then all_mutually_exclusive -> convert_one_of
+    for x in arms:
+        doc({"anyOf": [x, nul]})
+        doc({"anyOf": [nul, x]})
+        doc({"type": "object", "properties": {"o": {"anyOf": [x, nul]}, "r": {"anyOf": [nul, x]}}, "required": ["r"]})
+    sc = [{"type": "string"}, {"type": "integer"}, {"type": "boolean"}, {"type": "number"}, {"type": "null"},
+          {"type": "integer", "format": "uint8"}]
+    for a, b in itertools.permutations(sc, 2):
+        doc({"anyOf": [a, b]})
+    for a, b, c in itertools.permutations(sc[:5], 3):
+        doc({"anyOf": [a, b, c]})
+    doc({"type": "array", "items": {"anyOf": [{"type": "boolean"}, {"type": "string"}]}})
+    doc({"anyOf": [{"type": "integer"}, {"type": "integer", "format": "uint8"}]})     # not exclusive: flattened struct
+    doc({"anyOf": [{"type": "string"}, {"type": "string", "maxLength": 2}]})
+    doc({"anyOf": [{"type": "string"}, {"type": "array", "items": {"type": "string"}}]})
+    doc({"anyOf": [{"type": "string"}, {"type": "object", "properties": {"a": {"type": "integer"}}}]})
+    doc({"anyOf": [xs("a"), xt("V", {"type": "string"})]})
+    doc({"anyOf": [{"type": "string"}]})
+    doc({"anyOf": [{"type": "string"}, {"type": "integer"}], "oneOf": [{"type": "string"}, {"type": "integer"}]})
+    doc({"anyOf": [{"type": "string"}, {"type": "integer"}], "title": "T"})
     return docs
 
 
